@@ -167,17 +167,17 @@ def register_keep(reg):
                                           '_data': ('arr', 2, 'int')})
     sl = 'self.slices[k]'
     reg.add(Contract(
-        target=f'{SEG}.areas', props=['C05', 'C04'], kind='property', block=('areas', 'areas'),
+        target=f'{SEG}.areas', props=['C05', 'C04'], kind='property',
         params={'self': 'SegmentationImageAreas'},
         requires=['len(self.labels) == len(self.slices)',
                   f'forall(lambda k: 0 <= {sl}[0].start and {sl}[0].start < {sl}[0].stop and '
                   f'{sl}[0].stop <= self._data.shape[0] and 0 <= {sl}[1].start and '
                   f'{sl}[1].start < {sl}[1].stop and {sl}[1].stop <= self._data.shape[1], '
                   '(0, len(self.slices)))'],
-        ensures=[('one-per-label', 'len(areas) == len(self.labels)'),
+        ensures=[('one-per-label', 'len(result) == len(self.labels)'),
                  ('pixels-of-label-k-inside-its-slices',
-                  f'forall(lambda k: areas[k] == np.count_nonzero(self._data[{sl}] == '
-                  'self.labels[k]), (0, len(areas)))')],
+                  f'forall(lambda k: result[k] == np.count_nonzero(self._data[{sl}] == '
+                  'self.labels[k]), (0, len(result)))')],
         mutants=[('self._data[slices] == label', 'self._data[slices] != 0'),
                  ('zip(self.labels, self.slices, strict=True)', 'zip(self.labels[::-1], self.slices, strict=True)')],
     ))
